@@ -1301,6 +1301,22 @@ class Engine:
         else:
             self.exec_block(path, frame, s.orelse)
 
+    def st_While(self, path, frame, s):
+        """`while` without an invariant: executed by unrolling.  Every iteration's test is a branch; a path that still loops
+        after the bound is Unsupported (undecided), never cut off silently."""
+        bound = 12
+        for _ in range(bound):
+            if not self.test(path, self.eval(path, frame, s.test)):
+                self.exec_block(path, frame, s.orelse)
+                return
+            try:
+                self.exec_block(path, frame, s.body)
+            except _Break:
+                return
+            except _Continue:
+                continue
+        raise Unsupported(f"while loop still running after {bound} unrolled iterations (no invariant given)")
+
     def st_Break(self, path, frame, s):
         raise _Break()
 
